@@ -108,6 +108,14 @@ def _classify_active_history(case, obs):
     session.delete() of an object that is still pending in the unversioned run then fails there only."""
     if case.get('kind') != 'H' or not case['cfg'].get('autoflush'):
         return None
+    # attribution by experiment: the difference disappears when the UNVERSIONED twin flushes exactly where
+    # active_history makes the versioned run autoflush (assignment of an unloaded attribute)
+    if obs.get('plain_ah_outcomes') is not None:
+        def norm(o):
+            return 'error' if o.startswith('error') else o
+        if [norm(x) for x in obs['plain_ah_outcomes']] == [norm(x) for x in obs.get('outcomes') or []] and \
+                obs.get('plain_ah_live') == obs.get('final_live'):
+            return 'F-C07-active-history-autoflush'
     a, b = obs.get('outcomes') or [], obs.get('plain_outcomes') or []
     for i, (x, y) in enumerate(zip(a, b)):
         nx = 'error' if x.startswith('error') else x
